@@ -15,7 +15,7 @@ from hypothesis import strategies as st
 
 from pbt.core import Violation, hyp_run, HarnessError, case_hash
 from pbt import scenario, crash, world as W
-from pbt.node import fresh_dir, make_coin
+from pbt.node import close_leaked_handles, fresh_dir, make_coin
 from pbt.storage import Controller
 
 PROPERTY = 'C05'
@@ -125,6 +125,7 @@ def run_scenario(ctx_like, scratch, case, only=None, known=frozenset()):
     def restore():
         work = os.path.join(scratch, 'db')
         os.chdir(scratch)
+        close_leaked_handles(os.path.abspath(work))
         shutil.rmtree(work, ignore_errors=True)
         shutil.copytree(base, work)
         return work
